@@ -71,6 +71,8 @@ package ech
 //@   terminates
 //@   ensures[F:errclass] err != nil ==> liberr(err) && isnil(out)
 //@   ensures[S:size] err == nil ==> len(out) >= 9 && len(out) <= 5 + 65535
+//@   loop 1 "range c.Extensions"
+//@     invariant[grows] len(bbuf(b)) >= entry(len(bbuf(b)))
 
 //@ func clientHello.parseExtensions returns (err)
 //@   requires c != nil
@@ -95,3 +97,83 @@ package ech
 //@   terminates
 //@   ensures[S:nonnil] err == nil ==> hello != nil && fresh(hello)
 //@   ensures[F:errclass] err != nil ==> is(err, ErrDecodeError) || is(err, ErrUnexpectedMessage)
+
+//@ func serverHello.IsHelloRetryRequest
+//@   inline
+
+// ---------------------------------------------------------------------------
+// ech.go
+// ---------------------------------------------------------------------------
+
+//@ ghost atomic32(p any) int
+
+// connInv: the representation invariant of Conn, established by NewConn and preserved by Read and Write.
+//@ pure connInv(c *Conn) bool = c != nil && c.Conn != nil && c.retryCount != nil && c.debugf != nil &&
+//@     (c.inner == nil ==> c.writePassthrough && c.readPassthrough && len(c.writeBuf) == 0 && atomic32(c.retryCount) == 0) &&
+//@     (c.inner != nil ==> c.outer != nil && c.outer.echExt != nil && c.hpkeCtx != nil &&
+//@         1 <= hseq(c.hpkeCtx) && hseq(c.hpkeCtx) <= 2 && (!c.readPassthrough ==> hseq(c.hpkeCtx) == 1))
+
+//@ functype Option(c)
+//@   modifies c.keys, c.debugf
+
+//@ func Conn.inspectWrite returns (err)
+//@   requires c != nil && c.debugf != nil && c.retryCount != nil
+//@   requires len(record) >= 5 && len(c.writeBuf) >= len(record)
+//@   modifies c.writePassthrough, atomic32(c.retryCount)
+//@   allocates serverHello
+
+//@ func Conn.Write returns (n, err)
+//@   requires connInv(c)
+//@   modifies c.writeBuf, c.writePassthrough, atomic32(c.retryCount), slen(c.Conn)
+//@   allocates serverHello
+//@   terminates
+//@   ensures[S:inv] connInv(c)
+//@   loop 1 "len(c.writeBuf) >= 5"
+//@     invariant c.inner != nil
+//@     decreases len(c.writeBuf)
+
+//@ func Conn.processEncryptedClientHello returns (inner, err)
+//@   requires c != nil && h != nil && echInv(h) && c.debugf != nil
+//@   requires isRetry ==> c.outer != nil && c.outer.echExt != nil && c.hpkeCtx != nil && hseq(c.hpkeCtx) == 1
+//@   requires !isRetry ==> c.hpkeCtx == nil
+//@   modifies c.hpkeCtx, hseq, hid
+//@   allocates clientHello, echExt, hpke.Receipient
+//@   terminates
+//@   ensures[S:ctx] inner != nil ==> c.hpkeCtx != nil && h.echExt != nil && fresh(inner)
+//@   ensures[F:seq-first] inner != nil && !isRetry ==> hseq(c.hpkeCtx) == 1
+//@   ensures[F:seq-retry] isRetry ==> c.hpkeCtx == old(c.hpkeCtx) && (inner != nil ==> hseq(c.hpkeCtx) == 2) && 1 <= hseq(c.hpkeCtx) && hseq(c.hpkeCtx) <= 2
+//@   loop 1 "range c.keys"
+//@     invariant[no-ctx-yet] !isRetry ==> c.hpkeCtx == nil
+//@     invariant[ctx-kept] isRetry ==> c.hpkeCtx == old(c.hpkeCtx) && hseq(c.hpkeCtx) == 1
+//@     invariant[not-opened] isnil(innerBytes)
+//@   loop 3 "!want.Empty()"
+//@     invariant 0 <= p && p <= len(h.Extensions)
+//@   loop 4 "p < len(h.Extensions) && h.Extensions[p].Type != extType"
+//@     invariant 0 <= p && p <= len(h.Extensions)
+//@     decreases len(h.Extensions) - p
+
+//@ func Conn.handleClientHello returns (outer, inner, err)
+//@   requires c != nil && c.debugf != nil && len(record) >= 5
+//@   requires isRetry ==> c.inner != nil && c.outer != nil && c.outer.echExt != nil && c.hpkeCtx != nil && hseq(c.hpkeCtx) == 1
+//@   requires !isRetry ==> c.hpkeCtx == nil
+//@   modifies c.hpkeCtx, hseq, hid
+//@   allocates clientHello, echExt, hpke.Receipient
+//@   terminates
+//@   ensures[S:outer] err == nil ==> outer != nil && fresh(outer)
+//@   ensures[S:inner] err == nil && inner != nil ==> fresh(inner) && c.hpkeCtx != nil && outer.echExt != nil
+//@   ensures[F:seq-first] err == nil && inner != nil && !isRetry ==> hseq(c.hpkeCtx) == 1
+//@   ensures[F:retry] isRetry ==> c.hpkeCtx == old(c.hpkeCtx) && (err == nil ==> inner != nil && hseq(c.hpkeCtx) == 2) && 1 <= hseq(c.hpkeCtx) && hseq(c.hpkeCtx) <= 2
+
+//@ func Conn.Read returns (n, err)
+//@   requires connInv(c)
+//@   writes b
+//@   modifies c.readBuf, c.readErr, c.readPassthrough, hseq, hid, rpos(c.Conn), slen(c.Conn), closed(c.Conn), c.writeBuf, c.writePassthrough, atomic32(c.retryCount)
+//@   allocates clientHello, echExt, hpke.Receipient, serverHello
+//@   terminates
+//@   ensures[S:inv] connInv(c)
+//@   ensures[S:count] 0 <= n && n <= len(b)
+
+//@ func NewConn returns (outConn, err)
+//@   requires conn != nil
+//@   terminates
+//@   ensures[S:inv] err == nil ==> connInv(outConn)
